@@ -298,3 +298,85 @@ fn d11_bytes_between_last_block_and_adler32() {
         roundtrip_container(&f);
     }
 }
+
+/// LSB-first bit writer for hand-made deflate streams (Huffman codes are written MSB-first through `code`).
+struct Bits {
+    out: Vec<u8>,
+    acc: u32,
+    n: u32,
+}
+
+impl Bits {
+    fn new() -> Self {
+        Bits { out: Vec::new(), acc: 0, n: 0 }
+    }
+    fn put(&mut self, v: u32, w: u32) {
+        for i in 0..w {
+            self.acc |= ((v >> i) & 1) << self.n;
+            self.n += 1;
+            if self.n == 8 {
+                self.out.push(self.acc as u8);
+                self.acc = 0;
+                self.n = 0;
+            }
+        }
+    }
+    fn code(&mut self, c: u32, w: u32) {
+        for i in (0..w).rev() {
+            self.put((c >> i) & 1, 1);
+        }
+    }
+    fn finish(mut self) -> Vec<u8> {
+        if self.n > 0 {
+            self.out.push(self.acc as u8);
+        }
+        self.out
+    }
+}
+
+/// D8: a dynamic header whose code-length alphabet uses only small symbols (here 0, 1 and 8; none of the repeat codes
+/// 16-18). The predicted code-length tree is then shorter than the positions TREE_CODE_ORDER_TABLE visits, and
+/// calc_tc_lengths_without_trailing_zeros indexed it out of range. Listed in the property text of C05.
+#[test]
+fn d8_code_length_alphabet_without_repeat_codes() {
+    let mut b = Bits::new();
+    b.put(1, 1); // BFINAL
+    b.put(2, 2); // dynamic
+    b.put(0, 5); // HLIT: 257 codes
+    b.put(1, 5); // HDIST: 2 codes
+    b.put(18 - 4, 4); // HCLEN: 18 entries (up to symbol 1 in the order table)
+    // code-length alphabet: symbol 0 -> 1 bit, symbols 1 and 8 -> 2 bits; order 16 17 18 0 8 7 9 6 10 5 11 4 12 3 13 2 14 1
+    let order = [16, 17, 18, 0, 8, 7, 9, 6, 10, 5, 11, 4, 12, 3, 13, 2, 14, 1];
+    for s in order {
+        b.put(match s { 0 => 1, 1 | 8 => 2, _ => 0 }, 3);
+    }
+    // canonical codes of the code-length alphabet: 0 -> "0", 1 -> "10", 8 -> "11"
+    let mut cl = |b: &mut Bits, sym: u32| match sym {
+        0 => b.code(0, 1),
+        1 => b.code(2, 2),
+        _ => b.code(3, 2),
+    };
+    // literal/length codes: 0..=254 and 256 have 8 bits (complete), 255 unused
+    for s in 0..257u32 {
+        cl(&mut b, if s == 255 { 0 } else { 8 });
+    }
+    // two distance codes of one bit each
+    cl(&mut b, 1);
+    cl(&mut b, 1);
+    // data: a few literals (symbol s < 255 has code s), then end of block (code 255)
+    for &c in b"hello, hello, hello" {
+        b.code(c as u32, 8);
+    }
+    b.code(255, 8);
+    let d = b.finish();
+    for verify in [true, false] {
+        let dd = d.clone();
+        let r = catch_unwind(move || decompress_deflate_stream(&dd, verify, 0));
+        assert!(r.is_ok(), "decompress_deflate_stream panicked (verify={})", verify);
+        if let Ok(Ok(res)) = r {
+            assert_eq!(&res.plain_text[..], b"hello, hello, hello");
+            let back = recompress_deflate_stream(&res.plain_text, &res.prediction_corrections).unwrap();
+            assert_eq!(&back[..], &d[..res.compressed_size]);
+        }
+    }
+}
